@@ -53,7 +53,7 @@ def real_parse(data: bytes) -> dict:
     import bellows.ash as ash
     try:
         return frame_rec(ash.parse_frame(bytes(data)))
-    except Exception:
+    except BaseException:
         return {"type": "INVALID"}
 
 
@@ -69,10 +69,17 @@ class Real:
         self.p._transport = self.tr
 
     def enc(self, f, cancel):
-        o = frame_obj(f)
-        b = o.to_bytes()
+        # an exception out of the encoder is an observable outcome (no bytes), not a failure of the harness
+        try:
+            o = frame_obj(f)
+            b = o.to_bytes()
+        except BaseException as e:  # noqa
+            return {"a": "enc", "f": f, "cancel": int(cancel), "bytes": [], "wire": [], "back": {"type": "INVALID"}, "raised": type(e).__name__}
         self.tr.writes.clear()
-        self.p._write_frame(o, prefix=(self.ash.Reserved.CANCEL,) if cancel else ())
+        try:
+            self.p._write_frame(o, prefix=(self.ash.Reserved.CANCEL,) if cancel else ())
+        except BaseException as e:  # noqa
+            return {"a": "enc", "f": f, "cancel": int(cancel), "bytes": list(b), "wire": [], "back": real_parse(b), "raised": type(e).__name__}
         w = b"".join(self.tr.writes)
         return {"a": "enc", "f": f, "cancel": int(cancel), "bytes": list(b), "wire": list(w), "back": real_parse(b)}
 
@@ -80,10 +87,13 @@ class Real:
         return {"a": "parse", "bytes": list(data), "got": real_parse(bytes(data))}
 
     def stuff(self, data):
-        s = bytes(self.ash.AshProtocol._stuff_bytes(bytes(data)))
+        try:
+            s = bytes(self.ash.AshProtocol._stuff_bytes(bytes(data)))
+        except BaseException:
+            return {"a": "stuff", "bytes": list(data), "out": [], "back": ["raised"]}
         try:
             back = list(self.ash.AshProtocol._unstuff_bytes(s))
-        except Exception:
+        except BaseException:
             back = ["raised"]
         return {"a": "stuff", "bytes": list(data), "out": list(s), "back": back}
 
@@ -91,11 +101,14 @@ class Real:
         try:
             out = list(self.ash.AshProtocol._unstuff_bytes(bytes(data)))
             return {"a": "unstuff", "bytes": list(data), "ok": True, "out": out}
-        except Exception:
+        except BaseException:
             return {"a": "unstuff", "bytes": list(data), "ok": False, "out": []}
 
     def rand(self):
-        return {"a": "rand", "out": list(self.ash.generate_random_sequence(256))}
+        try:
+            return {"a": "rand", "out": list(self.ash.generate_random_sequence(256))}
+        except BaseException as e:  # noqa
+            return {"a": "rand", "out": [], "raised": type(e).__name__}
 
 
 class Ref:
